@@ -100,7 +100,8 @@ def inline_helpers(raw, max_rounds=6):
     import re
     # pure accessors no rule names, plus the connection-status predicates (rules reason about the status enum itself, see rules/C12.py)
     STATUS = ("RenetClient::is_disconnected", "RenetClient::is_connected", "RenetClient::is_connecting", "RenetClient::disconnect_reason",
-              "SendChannelReliable::can_send_message", "SendChannelUnreliable::can_send_message")   # + the channels' budget predicate
+              "SendChannelReliable::can_send_message", "SendChannelUnreliable::can_send_message",   # + the channels' budget predicate
+              "NetcodeClient::is_disconnected", "NetcodeClient::is_connected", "NetcodeClient::is_connecting", "NetcodeClient::disconnect_reason")
     accessors = {p for p, j in raw.items() if p not in helpers and is_pure_accessor(p, j, raw)
                  and (p.endswith(STATUS) or p not in known_functions())}
     helpers |= accessors
@@ -165,7 +166,9 @@ def inline_helpers(raw, max_rounds=6):
         # every function: `let r = match .. { A => Some(x), B => None }; if let Some(x) = r { .. }` has the same merge-then-test shape as an inlined helper
         if not any(bb["term"].get("inl_call") for bb in out[p]["blocks"]):
             out[p] = dict(out[p]); out[p]["blocks"] = [dict(b) for b in out[p]["blocks"]]
+        duplicate_return_tails(out[p])
         thread_known_variants(out[p])
+        duplicate_return_tails(out[p])
     return out, used
 
 
@@ -173,36 +176,146 @@ _VARIANT_INDEX = {"Ok": 0, "Err": 1, "None": 0, "Some": 1, "Continue": 0, "Break
 _BRANCH = {"Ok": "Continue", "Err": "Break", "Some": "Continue", "None": "Break"}
 
 
+def _succs(b):
+    t = b["term"]; k = t["k"]
+    if k == "goto": return [t["target"]]
+    if k == "switch": return [x for _, x in t["targets"]] + [t["otherwise"]]
+    if k in ("call", "assert", "drop"): return [t["target"]] if t.get("target") is not None else []
+    return []
+
+
+def duplicate_return_tails(j, max_blocks=8, max_stmts=24, max_preds=12):
+    """tail duplication: a join block from which the function runs straight to its `return` (a hoisted common tail such as
+    `self.usage -= len; Some(message)` or `self.last_received = now; payload` after a `match`) is cloned for each predecessor, so that what
+    the tail does is again dominated by the arm that leads to it. Purely a CFG normalisation: no path is added or removed."""
+    blocks = j["blocks"]
+    for _round in range(6):
+        preds = {}
+        for b in blocks:
+            if b.get("cleanup"): continue
+            for x in _succs(b): preds.setdefault(x, []).append(b["i"])
+        done = False
+        for R in list(blocks):
+            if R["term"]["k"] != "return" or R.get("cleanup"): continue
+            # grow the linear chain backwards from the return block while blocks have a single predecessor
+            chain = [R["i"]]
+            while True:
+                ps = sorted(set(preds.get(chain[0], [])))
+                if len(ps) != 1: break
+                q = blocks[ps[0]]
+                if q.get("cleanup") or len(set(_succs(q))) != 1 or q["i"] in chain or q["term"]["k"] == "switch": break
+                chain.insert(0, q["i"])
+                if len(chain) > max_blocks: break
+            head = chain[0]
+            hp = sorted(set(preds.get(head, [])))
+            if len(hp) < 2 or len(hp) > max_preds or len(chain) > max_blocks: continue
+            if sum(len(blocks[c]["stmts"]) for c in chain) > max_stmts: continue
+            if head == 0 or any(h in chain for h in hp): continue
+            # keep the original chain for the first predecessor, clone it for the others
+            for pi in hp[1:]:
+                P = blocks[pi]
+                base = len(blocks); remap = {ci: base + k for k, ci in enumerate(chain)}
+                for ci in chain:
+                    cb = blocks[ci]
+                    nb = {"i": remap[ci], "cleanup": False, "stmts": json.loads(json.dumps(cb["stmts"])), "term": json.loads(json.dumps(cb["term"])), "tail_dup_of": ci}
+                    if nb["term"]["k"] != "return": nb["term"]["target"] = remap[chain[chain.index(ci) + 1]]
+                    blocks.append(nb)
+                t = P["term"] = json.loads(json.dumps(P["term"]))
+                if t["k"] == "switch":
+                    t["targets"] = [[v, remap[head] if x == head else x] for v, x in t["targets"]]
+                    if t["otherwise"] == head: t["otherwise"] = remap[head]
+                elif t.get("target") == head: t["target"] = remap[head]
+            done = True
+            break
+        if not done: break
+
+
 def thread_known_variants(j, max_chain=5):
     """jump threading after inlining: a helper returning `Err(..)` on one path and `Ok(..)` on another merges both at the call's continuation, where
     the caller immediately tests the variant (`?`, `match`, `if let`). The merge loses dominance facts (the store on the Ok path no longer
     dominates what follows the `?`). For every predecessor whose result variant is evident from the statements it executes, the short
-    continuation chain up to the discriminant switch is cloned and the switch is resolved. Purely a CFG normalisation: no path is added."""
+    continuation chain up to the discriminant switch is cloned and the switch is resolved. The same is done for a *correlated* test: a value
+    that an earlier switch on the way to the predecessor has already decided (`if fits { usage += n }; fits` followed by the caller's
+    `if !fits { return }`): the edge taken fixes the value. Purely a CFG normalisation: no path is added."""
     blocks = j["blocks"]
-    def succs(b):
-        t = b["term"]; k = t["k"]
-        if k == "goto": return [t["target"]]
-        if k == "switch": return [x for _, x in t["targets"]] + [t["otherwise"]]
-        if k in ("call", "assert", "drop"): return [t["target"]] if t.get("target") is not None else []
-        return []
-    def step_stmt(st, env, denv):
-        if st["k"] != "assign" or st["place"]["proj"]: return
+    locs = j.get("locals") or []
+    succs = _succs
+    def is_bool(l): return l < len(locs) and (locs[l].get("ty") or {}).get("k") == "bool"
+    def kill(l, env, denv, alias):
+        env.pop(l, None); denv.pop(l, None); alias.pop(l, None)
+        for k_ in [k_ for k_, r_ in alias.items() if r_ == l]: alias.pop(k_, None)
+    def learn(l, v, denv, alias):
+        denv[l] = v
+        root = alias.get(l, l)
+        denv[root] = v
+        for k_, r_ in alias.items():
+            if r_ == root: denv[k_] = v
+    def step_stmt(st, env, denv, alias):
+        if st["k"] != "assign": return
+        if st["place"]["proj"]:
+            return
         l = st["place"]["local"]; rv = st["rv"]
-        env.pop(l, None); denv.pop(l, None)
+        src = rv["op"]["place"]["local"] if rv["k"] == "use" and rv["op"]["k"] in ("copy", "move") and not rv["op"]["place"]["proj"] else None
+        sv_e = env.get(src) if src is not None else None; sv_d = denv.get(src) if src is not None else None; sroot = alias.get(src, src) if src is not None else None
+        kill(l, env, denv, alias)
         if rv["k"] in ("ref", "rawptr") and not rv["place"]["proj"] and rv["place"]["local"] in env: env[l] = env[rv["place"]["local"]]   # &x of a known variant
         if rv["k"] == "aggr" and rv.get("vname") in _VARIANT_INDEX and (rv.get("path") or "").split("::")[-1] in ("Result", "Option", "ControlFlow"): env[l] = rv["vname"]
-        elif rv["k"] == "use" and rv["op"]["k"] in ("copy", "move") and not rv["op"]["place"]["proj"] and rv["op"]["place"]["local"] in env: env[l] = env[rv["op"]["place"]["local"]]
+        elif src is not None:
+            if sv_e is not None: env[l] = sv_e
+            if sv_d is not None: denv[l] = sv_d
+            if sroot != l: alias[l] = sroot
         elif rv["k"] == "discr" and not rv["place"]["proj"] and rv["place"]["local"] in env: denv[l] = _VARIANT_INDEX[env[rv["place"]["local"]]]
         elif rv["k"] == "use" and rv["op"]["k"] == "const" and isinstance(rv["op"].get("val"), int) and (rv["op"].get("ty") or {}).get("k") == "bool": denv[l] = rv["op"]["val"]
-        elif rv["k"] == "use" and rv["op"]["k"] in ("copy", "move") and not rv["op"]["place"]["proj"] and rv["op"]["place"]["local"] in denv: denv[l] = denv[rv["op"]["place"]["local"]]
         elif rv["k"] == "un" and rv.get("op") == "Not" and rv["a"]["k"] in ("copy", "move") and not rv["a"]["place"]["proj"] and rv["a"]["place"]["local"] in denv and denv[rv["a"]["place"]["local"]] in (0, 1): denv[l] = 1 - denv[rv["a"]["place"]["local"]]
+    def step_term(cb, env, denv, alias):
+        tm = cb["term"]
+        if tm["k"] == "call":
+            d = tm["dest"]["local"] if not tm["dest"]["proj"] else None
+            if d is not None: kill(d, env, denv, alias)
+            nm = tm.get("resolved") or tm.get("callee") or ""
+            a0 = tm["args"][0] if tm["args"] else None
+            if nm.endswith("Try>::branch") and a0 and a0["k"] in ("copy", "move") and not a0["place"]["proj"] and a0["place"]["local"] in env and d is not None:
+                env[d] = _BRANCH[env[a0["place"]["local"]]]
+            elif nm.rsplit("::", 1)[-1] in ("is_none", "is_some") and "Option" in nm and a0 and a0["k"] in ("copy", "move") and not a0["place"]["proj"] and a0["place"]["local"] in env and d is not None:
+                v_ = env[a0["place"]["local"]]
+                if v_ in ("Some", "None"): denv[d] = int((v_ == "None") == nm.endswith("is_none"))
+            # a call may write through any `&mut` it was given: forget what is known about locals whose address escaped is beyond this
+            # normalisation; the values tracked here are plain bool / enum temporaries of the function itself
+    def edge_fact(q, target):
+        """(local, value) known on the edge q -> target of a switch on a plain local"""
+        tm = q["term"]
+        if tm["k"] != "switch": return None
+        on = tm["on"]
+        if on["k"] not in ("copy", "move") or on["place"]["proj"]: return None
+        c = on["place"]["local"]
+        vals = [v for v, x in tm["targets"] if x == target]
+        oth = tm["otherwise"] == target
+        if len(vals) == 1 and not oth: return (c, vals[0])
+        if not vals and oth and [v for v, _ in tm["targets"]] == [0] and is_bool(c): return (c, 1)
+        return None
     changed = True; rounds = 0
-    while changed and rounds < 40:
+    while changed and rounds < 60:
         changed = False; rounds += 1
         preds = {}
         for b in blocks:
             if b.get("cleanup"): continue
             for x in succs(b): preds.setdefault(x, []).append(b["i"])
+        def entry_state(pi, depth=4):
+            """facts that hold when block pi is entered, from the unique-predecessor chain above it"""
+            path = [pi]
+            cur = pi
+            for _ in range(depth):
+                ps = sorted(set(preds.get(cur, [])))
+                if len(ps) != 1 or ps[0] in path: break
+                path.insert(0, ps[0]); cur = ps[0]
+            env, denv, alias = {}, {}, {}
+            for a, b_ in zip(path, path[1:]):
+                q = blocks[a]
+                for st in q["stmts"]: step_stmt(st, env, denv, alias)
+                step_term(q, env, denv, alias)
+                ef = edge_fact(q, b_)
+                if ef: learn(ef[0], ef[1], denv, alias)
+            return env, denv, alias
         for S in list(blocks):
             if S["term"]["k"] != "switch" or S.get("cleanup"): continue
             on = S["term"]["on"]
@@ -210,35 +323,30 @@ def thread_known_variants(j, max_chain=5):
             chain = [S["i"]]
             cur = S["i"]
             while len(chain) < max_chain:
-                ps = preds.get(cur, [])
+                ps = sorted(set(preds.get(cur, [])))
                 if len(ps) != 1: break
                 p = blocks[ps[0]]
                 if p["term"]["k"] not in ("goto", "call") or len(succs(p)) != 1 or p.get("cleanup") or p["i"] in chain: break
                 chain.insert(0, p["i"]); cur = p["i"]
             head = chain[0]
-            hp = preds.get(head, [])
+            hp = sorted(set(preds.get(head, [])))
             if len(hp) < 2: continue
             for pi in hp:
                 P = blocks[pi]
-                if P["term"]["k"] != "goto" or P.get("cleanup"): continue
-                env, denv = {}, {}
-                for st in P["stmts"]: step_stmt(st, env, denv)
-                ok = True
+                if P.get("cleanup") or pi in chain: continue
+                if P["term"]["k"] == "goto": pass
+                elif P["term"]["k"] == "switch":
+                    if edge_fact(P, head) is None: continue
+                else: continue
+                env, denv, alias = entry_state(pi)
+                for st in P["stmts"]: step_stmt(st, env, denv, alias)
+                step_term(P, env, denv, alias)
+                ef = edge_fact(P, head)
+                if ef: learn(ef[0], ef[1], denv, alias)
                 for ci in chain:
                     cb = blocks[ci]
-                    for st in cb["stmts"]: step_stmt(st, env, denv)
-                    if ci != S["i"]:
-                        tm = cb["term"]
-                        if tm["k"] == "call":
-                            d = tm["dest"]["local"] if not tm["dest"]["proj"] else None
-                            if d is not None: env.pop(d, None); denv.pop(d, None)
-                            nm = tm.get("resolved") or tm.get("callee") or ""
-                            a0 = tm["args"][0] if tm["args"] else None
-                            if nm.endswith("Try>::branch") and a0 and a0["k"] in ("copy", "move") and not a0["place"]["proj"] and a0["place"]["local"] in env and d is not None:
-                                env[d] = _BRANCH[env[a0["place"]["local"]]]
-                            elif nm.rsplit("::", 1)[-1] in ("is_none", "is_some") and "Option" in nm and a0 and a0["k"] in ("copy", "move") and not a0["place"]["proj"] and a0["place"]["local"] in env and d is not None:
-                                v_ = env[a0["place"]["local"]]
-                                if v_ in ("Some", "None"): denv[d] = int((v_ == "None") == nm.endswith("is_none"))
+                    for st in cb["stmts"]: step_stmt(st, env, denv, alias)
+                    if ci != S["i"]: step_term(cb, env, denv, alias)
                 d = on["place"]["local"]
                 if d not in denv: continue
                 val = denv[d]
@@ -249,12 +357,13 @@ def thread_known_variants(j, max_chain=5):
                     cb = blocks[ci]
                     nb = {"i": remap[ci], "cleanup": False, "stmts": json.loads(json.dumps(cb["stmts"])), "term": json.loads(json.dumps(cb["term"])), "threaded_from": ci}
                     if ci == S["i"]: nb["term"] = {"k": "goto", "target": tgt, "span": cb["term"]["span"], "threaded": val}
-                    else:
-                        nxt = remap[chain[chain.index(ci) + 1]]
-                        if nb["term"]["k"] == "goto": nb["term"]["target"] = nxt
-                        else: nb["term"]["target"] = nxt
+                    else: nb["term"]["target"] = remap[chain[chain.index(ci) + 1]]
                     blocks.append(nb)
-                P["term"] = dict(P["term"]); P["term"]["target"] = remap[head]
+                t = P["term"] = json.loads(json.dumps(P["term"]))
+                if t["k"] == "switch":
+                    t["targets"] = [[v, remap[head] if x == head else x] for v, x in t["targets"]]
+                    if t["otherwise"] == head: t["otherwise"] = remap[head]
+                else: t["target"] = remap[head]
                 changed = True
             if changed: break
 
@@ -395,6 +504,28 @@ class Fn:
                 d[s["dest"]["local"]].append((bb, k, s))
         self._defs = d
         return d
+
+    def defs1(self, local):
+        """definitions of `local`, with the copies made by the CFG normalisations (threaded chains, duplicated tails) counted once"""
+        ds = self.defs().get(local, [])
+        if len(ds) <= 1: return list(ds)
+        seen, out = set(), []
+        for d in ds:
+            st = d[2]
+            key = json.dumps({k: v for k, v in st.items() if k not in ("target", "unwind")}, sort_keys=True)
+            if key not in seen: seen.add(key); out.append(d)
+        return out
+
+    def defs_at(self, local, bb, idx=10**9):
+        """the definitions of `local` that can be the value read at program point (bb, idx): if some definition dominates the point, only the
+        nearest dominating one (normalisation clones - threaded chains, duplicated tails - each carry their own copy of a definition)"""
+        ds = self.defs().get(local, [])
+        dom = [d for d in ds if (d[0] == bb and d[1] < idx) or (d[0] != bb and self.dominates(d[0], bb))]
+        if not dom: return list(ds)
+        best = dom[0]
+        for d in dom[1:]:
+            if (d[0] == best[0] and d[1] > best[1]) or (d[0] != best[0] and self.dominates(best[0], d[0])): best = d
+        return [best]
 
     # ---- origins ----------------------------------------------------------
     def origin_of_operand(self, op, depth=0):
